@@ -51,6 +51,18 @@ func init() {
 	reg(symPkg+"Int", basic(types.Int))
 	reg(symPkg+"String", basic(types.String))
 	reg(symPkg+"Float32", basic(types.Float32))
+	// Opaque*(v): a fresh variable constrained to v - concrete inputs for the symbolic encodings (self-tests)
+	opaque := func(kind types.BasicKind) intrinsicFn {
+		return func(m *Machine, fn *ssa.Function, args []Value) Value {
+			v := args[0].(*Term)
+			x := m.materialize(types.Typ[kind], "opaque").(*Term)
+			m.addPC(m.in.Eq(x, v))
+			return x
+		}
+	}
+	reg(symPkg+"OpaqueString", opaque(types.String))
+	reg(symPkg+"OpaqueInt64", opaque(types.Int64))
+	reg(symPkg+"OpaqueUint64", opaque(types.Uint64))
 
 	// Fill(name, ptr): *ptr = fresh symbolic value of its type
 	reg(symPkg+"Fill", func(m *Machine, fn *ssa.Function, args []Value) Value {
@@ -484,7 +496,7 @@ func (m *Machine) checkViolation(label, kind string, extra []*Term, kfs []string
 		m.res.Incon = append(m.res.Incon, "unknown-assert:"+label)
 		return
 	}
-	v := &Violation{Label: label, Kind: kind, Site: m.repoSite(), Model: model, Trace: append([]int{}, m.trace...), KFs: kfs, Outside: outside, usedNL: m.usesNL()}
+	v := &Violation{Label: label, Kind: kind, Site: m.repoSite(), Model: model, Trace: append([]int{}, m.trace...), KFs: kfs, Outside: outside, usedNL: m.usesNL(extra...)}
 	if os.Getenv("GOSYM_DEBUG") != "" {
 		for _, c := range m.pc {
 			fmt.Fprintf(os.Stderr, "  PC %s\n", m.in.Show(c))
@@ -549,7 +561,7 @@ func (m *Machine) mkTime(unix *Term) Value {
 func fmtSite(s string) string { return fmt.Sprint(s) }
 
 // usesNL: the path condition mentions an abstracted product / quotient.
-func (m *Machine) usesNL() bool {
+func (m *Machine) usesNL(extra ...*Term) bool {
 	if !m.in.nlUF {
 		return false
 	}
@@ -571,6 +583,11 @@ func (m *Machine) usesNL() bool {
 		return false
 	}
 	for _, c := range m.pc {
+		if walk(c) {
+			return true
+		}
+	}
+	for _, c := range extra {
 		if walk(c) {
 			return true
 		}
